@@ -1,7 +1,7 @@
 (* Extraction of the C01 model (CQL value codec + vint) for the correspondence driver.
    ExtrOcamlBasic and ExtrOcamlString only: N, Z, positive, nat stay the extracted inductive
    datatypes. *)
-From SV Require Import Base.Prelude Base.Bytes Model.Vint Model.Cql.
+From SV Require Import Base.Prelude Base.Bytes Model.Vint Model.Cql Model.CqlTyped.
 Require Extraction.
 Require Import ExtrOcamlBasic ExtrOcamlString.
 Extraction Language OCaml.
@@ -11,4 +11,6 @@ Extraction "../ocaml/c01/model.ml"
   ser_vector_cells ser_sequence_cells
   enc_spec enc_cell_spec conforms_ok enc_seq_cells_spec deser_listlike_cells cell_okb rust_native domain_excl
   uvint_encode uvint_decode vint_encode vint_decode zigzag_encode zigzag_decode
-  spec_uvint spec_vint spec_zigzag spec_uvint_len uvint_nbytes type_size.
+  spec_uvint spec_vint spec_zigzag spec_uvint_len uvint_nbytes type_size
+  typed_write typed_read typed_check typed_read_cell embed unembed of_cell min_twos
+  ser_cell_fixed ser_vector_cells_fixed.
